@@ -130,6 +130,43 @@ def run(chk: common.Check):
                 sig = "chain-selection-differs:" + ("blank" if " " in cs else "named") + (":exception" if not (isinstance(ra, dict) and isinstance(rb, dict)) else "")
                 found.append((sig, f"{name}: -c {cs} differs from running on the file without the other chains: {d}",
                               {"input": name, "chains": cs, "pdb_text": text if len(text) < 20000 else None, "differences": d}))
+    # ------------------------------------------------------------ several structures in ONE invocation with a selection
+    import os, shutil, subprocess, sys, tempfile
+    from vlib.purejob import strip_date
+    hl = [l for l in structures.read("1HPX.pdb").splitlines() if l[:6] == "ATOM  " and int(l[22:26]) <= 30]
+    hp = "\n".join(l for c in ("A", "B") for l in [x for x in hl if x[21] == c] + ["TER"]) + "\nEND\n"
+    sg = structures.read("3SGB-subset.pdb")
+    sel = ["A", "E"]
+    d1, d2 = tempfile.mkdtemp(dir="/var/tmp"), tempfile.mkdtemp(dir="/var/tmp")
+    try:
+        for d, f in ((d1, lambda t: t), (d2, lambda t: delete_other_chains(t, sel))):
+            open(os.path.join(d, "x.pdb"), "w").write(f(hp))
+            open(os.path.join(d, "y.pdb"), "w").write(f(sg))
+        env = dict(os.environ, PYTHONPATH=str(common.REPO), PYTHONHASHSEED="0")
+        copt = ["-c", "A", "-c", "E"]
+
+        def cli(d, args):
+            for f in ("x.pka", "y.pka"):
+                if os.path.exists(os.path.join(d, f)):
+                    os.unlink(os.path.join(d, f))
+            p = subprocess.run([sys.executable, "-m", "propka", "--quiet"] + args, cwd=d, env=env, capture_output=True, text=True, timeout=600)
+            return {f: strip_date(open(os.path.join(d, f)).read()) for f in ("x.pka", "y.pka") if os.path.exists(os.path.join(d, f))}, p
+        ref = {}
+        for f in ("x", "y"):
+            o, p = cli(d2, [f + ".pdb"])
+            ref[f + ".pka"] = o.get(f + ".pka")
+        for order in (["x.pdb", "y.pdb"], ["y.pdb", "x.pdb"]):
+            o, p = cli(d1, copt + ["-f"] + order)
+            chk.count(1, key=("cli-two-inputs", tuple(order)))
+            for f in ("x.pka", "y.pka"):
+                if o.get(f) != ref[f]:
+                    found.append(("chain-selection-differs:several-inputs", f"`-c A -c E -f {' '.join(order)}`: {f} differs from the run on the file without the other chains"
+                                  + (f" (exit {p.returncode}: {p.stderr[-200:]})" if p.returncode else ""), {"args": copt + ["-f"] + order, "file": f}))
+                    break
+    finally:
+        shutil.rmtree(d1, ignore_errors=True)
+        shutil.rmtree(d2, ignore_errors=True)
+
     uniq = {}
     for sig, what, rep in found:
         uniq.setdefault(sig, (sig, what, rep))
